@@ -11,7 +11,7 @@ EX_EDITS = [":s/o/0/<CR>", ":%s/a/A/g<CR>", ":d<CR>", ":2d<CR>", ":1,2d<CR>", ":
 BLOCK_EDITS = ["<c-v>jcX<esc>", "<c-v>jIab<esc>", "<c-v>jlAé<esc>", "<c-v>jjcnew<esc>", "<c-v>jld", "<c-v>jI<esc>", "l<c-v>jjc<esc>", "<c-v>jr#", "<c-v>j$Aend<esc>"]
 
 
-SINGLES = ["ia<left>b<esc>", "Aé<left><left>y<esc>", "ox<up>y<esc>", "rx", "ry", "rZ", "x", "~", "cwQ<esc>", "clé<esc>", "oab<esc>", "Oz<esc>", "ix<esc>", "aé<esc>", "Rqq<esc>", "dw", "J", "ccnew<esc>", "s!<esc>", "p", "yl"]
+SINGLES = ["iab<BS>c<esc>", "Aab cd<c-w>x<esc>", "cwZ<BS>Y<esc>", "Rab<BS>c<esc>", "ia<left>b<esc>", "Aé<left><left>y<esc>", "ox<up>y<esc>", "rx", "ry", "rZ", "x", "~", "cwQ<esc>", "clé<esc>", "oab<esc>", "Oz<esc>", "ix<esc>", "aé<esc>", "Rqq<esc>", "dw", "J", "ccnew<esc>", "s!<esc>", "p", "yl"]
 
 
 def gen_history(rng):
